@@ -90,6 +90,130 @@ func renderVal(v ssa.Value, depth int) string {
 	return "?"
 }
 
+// classifyRejection reduces a rejecting condition to (field, kind): the struct field it constrains (Type.Field, the
+// innermost field of a module type that occurs in it) and the kind of constraint, independent of how the condition
+// is spelled (len(x)==0 vs x=="", NewDec(1) vs OneDec(), helper extracted, if-chain vs switch). Conditions that
+// constrain no field of a module type (duplicate counters, map membership, phis of a search) are "structural".
+func classifyRejection(cond ssa.Value, neg bool) (field, kind string) {
+	// the fields mentioned
+	var fields []string
+	seen := map[ssa.Value]bool{}
+	var walk func(v ssa.Value, d int)
+	walk = func(v ssa.Value, d int) {
+		if v == nil || seen[v] || d > 8 {
+			return
+		}
+		seen[v] = true
+		if T, f, ok := fieldOfValue(v); ok && T != nil && T.Obj().Pkg() != nil && strings.HasPrefix(T.Obj().Pkg().Path(), modPath) {
+			fields = append(fields, T.Obj().Name()+"."+f)
+		}
+		switch x := v.(type) {
+		case *ssa.UnOp:
+			walk(x.X, d+1)
+		case *ssa.FieldAddr:
+			walk(x.X, d+1)
+		case *ssa.Field:
+			walk(x.X, d+1)
+		case *ssa.IndexAddr:
+			walk(x.X, d+1)
+		case *ssa.BinOp:
+			walk(x.X, d+1)
+			walk(x.Y, d+1)
+		case *ssa.Extract:
+			walk(x.Tuple, d+1)
+		case *ssa.Convert:
+			walk(x.X, d+1)
+		case *ssa.ChangeType:
+			walk(x.X, d+1)
+		case *ssa.Call:
+			// a method of a module type is a derived field of that type
+			if callee := x.Common().StaticCallee(); callee != nil && callee.Signature.Recv() != nil && len(fields) == 0 {
+				rt := callee.Signature.Recv().Type()
+				if pt, ok := rt.(*types.Pointer); ok {
+					rt = pt.Elem()
+				}
+				if nt, ok := rt.(*types.Named); ok && nt.Obj().Pkg() != nil && strings.HasPrefix(nt.Obj().Pkg().Path(), modPath) && d > 0 {
+					fields = append(fields, nt.Obj().Name()+"."+callee.Name()+"()")
+				}
+			}
+			if x.Common().IsInvoke() {
+				walk(x.Common().Value, d+1)
+			}
+			for _, a := range x.Common().Args {
+				walk(a, d+1)
+			}
+		}
+	}
+	walk(cond, 0)
+	if len(fields) == 0 {
+		return "", "structural"
+	}
+	sort.Strings(fields)
+	field = strings.Join(dedupe(fields), "+")
+	// the kind
+	sign := func(k string) string {
+		if neg {
+			return "not-" + k
+		}
+		return k
+	}
+	switch x := cond.(type) {
+	case *ssa.Call:
+		n := callName(x.Common())
+		m := n[strings.LastIndex(n, ".")+1:]
+		switch m {
+		case "IsNegative", "IsNil", "IsZero", "IsPositive", "Empty", "IsAnyNegative", "IsAnyNil", "IsValid":
+			return field, sign(m)
+		case "GT", "GTE", "LT", "LTE", "Equal", "Before", "After":
+			return field, sign(m)
+		}
+		if callee := x.Common().StaticCallee(); callee != nil && callee.Pkg != nil && strings.HasPrefix(callee.Pkg.Pkg.Path(), modPath) {
+			return field, sign("modcall") // a predicate of the module itself (membership, containment), whatever its name
+		}
+		return field, sign("call:" + m)
+	case *ssa.BinOp:
+		// emptiness of a string / slice in either spelling
+		isLen := func(v ssa.Value) bool {
+			c, ok := v.(*ssa.Call)
+			if !ok {
+				return false
+			}
+			b, ok := c.Common().Value.(*ssa.Builtin)
+			return ok && b.Name() == "len"
+		}
+		isZeroConst := func(v ssa.Value) bool {
+			c, ok := v.(*ssa.Const)
+			return ok && c.Value != nil && (c.Value.ExactString() == "0" || c.Value.ExactString() == `""`)
+		}
+		isOneConst := func(v ssa.Value) bool {
+			c, ok := v.(*ssa.Const)
+			return ok && c.Value != nil && c.Value.ExactString() == "1"
+		}
+		if isNilConst(x.X) || isNilConst(x.Y) {
+			if (x.Op == token.EQL) != neg {
+				return field, "nil"
+			}
+			return field, "non-nil"
+		}
+		emptyForm := (isLen(x.X) || types.Identical(x.X.Type().Underlying(), types.Typ[types.String])) && (isZeroConst(x.Y) && (x.Op == token.EQL || x.Op == token.LEQ) || isOneConst(x.Y) && x.Op == token.LSS)
+		if emptyForm && !neg {
+			return field, "empty"
+		}
+		return field, sign("cmp" + x.Op.String())
+	}
+	return field, sign("other")
+}
+
+func dedupe(xs []string) []string {
+	var out []string
+	for i, x := range xs {
+		if i == 0 || x != xs[i-1] {
+			out = append(out, x)
+		}
+	}
+	return out
+}
+
 // genesisRejections enumerates the rejecting conditions of a module's genesis validation tree.
 func genesisRejections(w *World, root *ssa.Function) []rejection {
 	var out []rejection
@@ -124,7 +248,13 @@ func genesisRejections(w *World, root *ssa.Function) []rejection {
 			if !rejOnTrue {
 				key = "!" + key
 			}
-			out = append(out, rejection{Fn: fn, If: i, Key: funcName(fn) + ": rejects when " + key, Cond: base, Neg: !rejOnTrue})
+			_ = key
+			field, kind := classifyRejection(base, !rejOnTrue)
+			k2 := "structural condition (no field of a module type)"
+			if field != "" {
+				k2 = field + " " + kind
+			}
+			out = append(out, rejection{Fn: fn, If: i, Key: k2, Cond: base, Neg: !rejOnTrue})
 		}
 	}
 	return out
@@ -134,37 +264,36 @@ func genesisRejections(w *World, root *ssa.Function) []rejection {
 // against what the running chain can store (closed table; a condition that is not listed and not discharged is
 // reported: a validator stricter than the runtime makes an exported state un-importable).
 var c12VettedRejections = map[string]string{
+	// keys are "<Type.Field> <kind>" as produced by classifyRejection (independent of spelling and of the function
+	// the test lives in); conditions that constrain no field of a module type are structural (uniqueness of keys,
+	// membership of referenced names) and are accepted as a class: stores are keyed by those very names.
+	"structural condition (no field of a module type)": "uniqueness of names / owners / ids and membership of referenced vesting types: records are stored under these keys, a pool is created only with an existing vesting type (fatal GetVestingType in addVestingPool), duplicate pool names are rejected at creation, export writes only the four known period units",
 	// cfevesting: pools
-	"x/cfevesting/types.VestingPool.Validate: rejects when (builtin.len(<*x/cfevesting/types.VestingPool>.Name) == 0)":                                                                            "pools are created only by CreateVestingPool / the v120 split, both with a name checked non-empty (ValidateCreateVestingPool; constants)",
-	"x/cfevesting/types.VestingPool.Validate: rejects when math.Int.IsNegative(<*x/cfevesting/types.VestingPool>.InitiallyLocked)":                                                                "InitiallyLocked is the created amount, rejected when negative at creation; the split subtracts only behind a non-negativity guard (C16.split)",
-	"x/cfevesting/types.VestingPool.Validate: rejects when math.Int.IsNegative(<*x/cfevesting/types.VestingPool>.Withdrawn)":                                                                      "Withdrawn starts at zero and only grows by oracle results, which are zero or GetCurrentlyLocked() (C06.table, C05.pair)",
-	"x/cfevesting/types.VestingPool.Validate: rejects when math.Int.IsNegative(<*x/cfevesting/types.VestingPool>.Sent)":                                                                           "Sent starts at zero and only grows by amounts validated non-negative (C05.avail)",
-	"x/cfevesting/types.VestingPool.Validate: rejects when math.Int.IsNegative(types.VestingPool.GetCurrentlyLocked(<*x/cfevesting/types.VestingPool>))":                                          "Sent grows only where currentlyLocked >= amount and Withdrawn by at most currentlyLocked (C05.avail, C06.table)",
-	"x/cfevesting/types.AccountVestingPools.ValidateAgainstVestingTypes: rejects when !phi":                                                                                                       "a pool is created only with an existing vesting type (GetVestingType error is fatal in addVestingPool); types are never removed at run time",
-	"x/cfevesting/types.AccountVestingPools.checkDuplications: rejects when (phi > 1)":                                                                                                            "addVestingPool rejects a duplicate pool name for the owner",
-	"x/cfevesting/types.GenesisState.validateAccountVestingPools: rejects when (phi > 1)":                                                                                                         "pools are stored under the owner address as key: one record per owner",
-	"x/cfevesting/types.GenesisState.validateVestingTypes: rejects when (phi > 1)":                                                                                                                "vesting types are stored under their name as key: one record per name",
-	"x/cfevesting/types.GenesisState.Validate: rejects when ?[key]#1":                                                                                                                             "traces are stored under their id as key: ids are unique",
-	"x/cfevesting/types.GenesisState.Validate: rejects when (<*x/cfevesting/types.VestingAccountTrace>.Id >= types.GenesisState.GetVestingAccountTraceCount(<*x/cfevesting/types.GenesisState>))": "AppendVestingAccountTrace assigns id = count and then stores count+1 (C17.only: single writer)",
+	"VestingPool.Name empty":                                               "pools are created only by CreateVestingPool / the v120 split, both with a name checked non-empty (ValidateCreateVestingPool; constants)",
+	"VestingPool.InitiallyLocked IsNegative":                               "InitiallyLocked is the created amount, rejected when negative at creation; the split subtracts only behind a non-negativity guard (C16.split)",
+	"VestingPool.Withdrawn IsNegative":                                     "Withdrawn starts at zero and only grows by oracle results, which are zero or GetCurrentlyLocked() (C06.table, C05.pair)",
+	"VestingPool.Sent IsNegative":                                          "Sent starts at zero and only grows by amounts validated non-negative (C05.avail)",
+	"VestingPool.GetCurrentlyLocked() IsNegative":                          "Sent grows only where currentlyLocked >= amount and Withdrawn by at most currentlyLocked (C05.avail, C06.table)",
+	"VestingAccountTrace.Id cmp>=":                                         "AppendVestingAccountTrace assigns id = count and then stores count+1 (C17.only: single writer)",
+	"AccountVestingPools.VestingPools+VestingPool.VestingType not-modcall": "membership of the pool's vesting type among the vesting types, when the search is a helper of its own: a pool is created only with an existing vesting type and types are never removed at run time",
 	// cfevesting: vesting types (written by genesis and the v120 upgrade only; exported through UnitsFromDuration)
-	"x/cfevesting/types.GenesisVestingType.Validate: rejects when (builtin.len(<*x/cfevesting/types.GenesisVestingType>.Name) == 0)":                                                                                  "vesting types come from a validated genesis or from the upgrade's constants",
-	"x/cfevesting/types.GenesisVestingType.Validate: rejects when (types.DurationFromUnits(<*x/cfevesting/types.GenesisVestingType>.LockupPeriodUnit,<*x/cfevesting/types.GenesisVestingType>.LockupPeriod)#0 < 0)":   "periods are stored as validated at import; export renders them with a unit that divides them (C12.lossless)",
-	"x/cfevesting/types.GenesisVestingType.Validate: rejects when (types.DurationFromUnits(<*x/cfevesting/types.GenesisVestingType>.VestingPeriodUnit,<*x/cfevesting/types.GenesisVestingType>.VestingPeriod)#0 < 0)": "as above",
-	"x/cfevesting/types.GenesisVestingType.Validate: rejects when types.Dec.GT(<*x/cfevesting/types.GenesisVestingType>.Free,types.NewDec(1))":                                                                        "Free is stored as validated at import / upgrade constant",
-	"x/cfevesting/types.GenesisVestingType.Validate: rejects when types.Dec.IsNegative(<*x/cfevesting/types.GenesisVestingType>.Free)":                                                                                "as above",
-	"x/cfevesting/types.DurationFromUnits: rejects when !(<x/cfevesting/types.PeriodUnit> == \"second\")":                                                                                                             "export writes only the four known units (UnitsFromDuration)",
+	"GenesisVestingType.Name empty":                                              "vesting types come from a validated genesis or from the upgrade's constants",
+	"GenesisVestingType.LockupPeriod+GenesisVestingType.LockupPeriodUnit cmp<":   "periods are stored as validated at import; export renders them with a unit that divides them (C12.lossless)",
+	"GenesisVestingType.VestingPeriod+GenesisVestingType.VestingPeriodUnit cmp<": "as above",
+	"GenesisVestingType.Free GT":                                                 "Free is stored as validated at import / upgrade constant",
+	"GenesisVestingType.Free IsNegative":                                         "as above",
 	// cfeminter: state
-	"x/cfeminter/types.GenesisState.Validate: rejects when !types.Params.ContainsMinter(<*x/cfeminter/types.GenesisState>.Params,<*x/cfeminter/types.GenesisState>.MinterState.SequenceId)": "parameter updates keep the current period (C13.current); the state advances only to an existing successor",
-	"x/cfeminter/types.MinterState.Validate: rejects when math.Int.IsNil(<*x/cfeminter/types.MinterState>.AmountMinted)":                                                                    "state is written by mint() only, from Add results",
-	"x/cfeminter/types.MinterState.Validate: rejects when math.Int.IsNegative(<*x/cfeminter/types.MinterState>.AmountMinted)":                                                               "AmountMinted grows by amounts behind the IsNegative guard (C02.nonneg)",
-	"x/cfeminter/types.MinterState.Validate: rejects when types.Dec.IsNil(<*x/cfeminter/types.MinterState>.RemainderFromPreviousMinter)":                                                    "set from a Sub result / ZeroDec",
-	"x/cfeminter/types.MinterState.Validate: rejects when types.Dec.IsNegative(<*x/cfeminter/types.MinterState>.RemainderFromPreviousMinter)":                                               "fractional part x - trunc(x) of a non-negative total (C02.carry)",
-	"x/cfeminter/types.MinterState.Validate: rejects when types.Dec.IsNil(<*x/cfeminter/types.MinterState>.RemainderToMint)":                                                                "set from a Sub result",
-	"x/cfeminter/types.MinterState.Validate: rejects when types.Dec.IsNegative(<*x/cfeminter/types.MinterState>.RemainderToMint)":                                                           "fractional part of a non-negative amount",
+	"GenesisState.Params+MinterState.SequenceId not-modcall": "parameter updates keep the current period (C13.current); the state advances only to an existing successor",
+	"MinterState.AmountMinted IsNil":                         "state is written by mint() only, from Add results",
+	"MinterState.AmountMinted IsNegative":                    "AmountMinted grows by amounts behind the IsNegative guard (C02.nonneg)",
+	"MinterState.RemainderFromPreviousMinter IsNil":          "set from a Sub result / ZeroDec",
+	"MinterState.RemainderFromPreviousMinter IsNegative":     "fractional part x - trunc(x) of a non-negative total (C02.carry)",
+	"MinterState.RemainderToMint IsNil":                      "set from a Sub result",
+	"MinterState.RemainderToMint IsNegative":                 "fractional part of a non-negative amount",
 	// cfedistributor: states
-	"x/cfedistributor/types.State.IsNegative: rejects when types.DecCoin.IsNegative(<*x/cfedistributor/types.State>.Remains[*])": "leftovers change only by Add of a share, TruncateDecimal change or clearing (C03.writers)",
-	"x/cfedistributor/types.State.Validate: rejects when (<*x/cfedistributor/types.State>.Account != nil)":                       "export nils the burn state's account out (the run-time shape is an empty account): C12.shape / C12.sameshape",
-	"x/cfedistributor/types.State.Validate: rejects when (<*x/cfedistributor/types.State>.Account == nil)":                       "non-burn states are created with the destination account",
+	"State.Remains IsNegative": "leftovers change only by Add of a share, TruncateDecimal change or clearing (C03.writers)",
+	"State.Account non-nil":    "export nils the burn state's account out (the run-time shape is an empty account): C12.shape / C12.sameshape",
+	"State.Account nil":        "non-burn states are created with the destination account",
 }
 
 // checkGenesisRejections: rule C12.accepts.
